@@ -77,6 +77,10 @@ var registry = []Harness{
 	{Prop: "C14", Pkg: "container", Func: "VerifC14Roster", Link: []string{"nns", "netmap", "balance", "neofsid", "container"},
 		Quick: [][]int{{2, 1, 1}, {0, 0, 1}, {1, 0, 2}}, Thorough: [][]int{{2, 1, 1}, {0, 0, 1}, {1, 0, 2}, {3, 2, 3}, {1, 3, 0}},
 		Bound: "batches of symbolic 33-byte keys of sizes (param0,param1) for vector 0 and param2 for vector 1, commit with symbolic REPs 0..255, second round with one batch, empty commit"},
+	{Prop: "C14", Pkg: "container", Func: "VerifC14Interleaved", Link: []string{"nns", "netmap", "balance", "neofsid", "container"},
+		Quick:    [][]int{{0, 1, 0, 0, 9, 9}, {0, 1, 1, 0, 9, 9}},
+		Thorough: [][]int{{0, 1, 0, 0, 9, 9}, {0, 1, 1, 0, 9, 9}, {0, 1, 2, 0, 1, 0}, {0, 0, 1, 0, 1, 9}, {0, 1, 0, 1, 0, 9}},
+		Bound:    "batches of two symbolic keys each for the vectors given by the params, in that order within one epoch (a lower vector revisited after a higher one was started), one commit: every vector holds its own batches in submission order"},
 	{Prop: "C14", Pkg: "container", Func: "VerifC14Counter", Link: []string{"container"},
 		Bound: "kernel counterToBytes/counterFromBytes for every counter 1..32767 (two symbolic counters): two bytes, order preserving, round trip"},
 	{Prop: "C14", Pkg: "container", Func: "VerifC14Signatures", Link: []string{"nns", "netmap", "balance", "neofsid", "container"},
@@ -160,22 +164,22 @@ var registry = []Harness{
 		Thorough: [][]int{{1, 0, 0}, {1, 4, 0}, {1, 7, 0}, {4, 0, 0}, {4, 4, 0}, {4, 7, 0}, {7, 0, 0}, {7, 4, 0}, {7, 7, 0}, {1, 0, 1}, {1, 4, 1}, {4, 0, 1}, {4, 7, 1}, {7, 4, 1}, {1, 0, 2}, {4, 4, 2}, {7, 7, 2}, {1, 0, 3}, {4, 0, 3}, {7, 4, 3}},
 		Bound:    "five linked contracts; committee size param0 in {1,4,7}; V2 blob with version-field length param1 in {0,4,7} and every other byte symbolic; fees (0 included), owner balance symbolic; symbolic Alphabet signature; param2: 1 = named container (alias fee, NNS registration), 2 = named with a domain registered in advance by the committee, 3 = the owner is the first Alphabet node itself (one fee leg is a self-transfer); then the fee is changed and a second container is put"},
 	{Prop: "C04", Pkg: "container", Func: "VerifC04Registry", Link: []string{"nns", "netmap", "balance", "neofsid", "container"},
-		Quick:    [][]int{{2, 0, 0, 3}, {2, 4, 2, 3}, {2, 0, 0, 4}, {2, 7, 3, 0}, {2, 0, 2, 2}, {2, 4, 1, 3}, {2, 0, 4, 3}, {2, 0, 0, 0}, {2, 4, 0, 2}, {2, 0, 2, 0}, {2, 0, 3, 3}, {2, 0, 2, 4}, {3, 0, 0, 4, 3}, {3, 4, 0, 3, 0}, {3, 0, 1, 3, 1}, {3, 4, 2, 3, 2}, {3, 100, 0, 4, 3}, {2, 100, 0, 3}},
+		Quick:    [][]int{{2, 0, 0, 3}, {2, 4, 2, 3}, {2, 0, 0, 4}, {2, 7, 3, 0}, {2, 0, 2, 2}, {2, 4, 1, 3}, {2, 0, 4, 3}, {2, 0, 0, 0}, {2, 4, 0, 2}, {2, 0, 2, 0}, {2, 0, 3, 3}, {2, 0, 2, 4}, {3, 0, 0, 4, 3}, {3, 4, 0, 3, 0}, {3, 0, 1, 3, 1}, {3, 4, 2, 3, 2}, {3, 100, 0, 4, 3}, {2, 100, 0, 3}, {3, 0, 0, 4, 0}},
 		Thorough: c04Thorough(),
 		Bound: "param0 consecutive symbolic operations (put, put with meta flag, putNamed with one shared name, delete, setEACL; symbolic target among two pool containers and a foreign id; symbolic Alphabet signature); blobs with version-field length param1 (+100: blobs that END with the owner ID, 31 bytes for an empty version field) and all other bytes symbolic, second owner symbolic (same or other); after each operation get/owner/eACL/alias/count/list/containersOf and the NNS alias record are compared with a reference model; fees are zero (C05 covers them)"},
 	{Prop: "C10", Unwind: 300, Pkg: "nns", Func: "VerifC10Lifecycle", Link: []string{"nns"},
-		Quick:    [][]int{{0, 30, 0, 99, 99}, {0, 10, 99, 99, 99}, {0, 20, 99, 99, 99}, {0, 2, 30, 99, 99}, {0, 2, 32, 99, 99}, {0, 30, 20, 99, 99}},
-		Thorough: [][]int{{0, 30, 0, 99, 99}, {0, 10, 99, 99, 99}, {0, 20, 99, 99, 99}, {0, 2, 30, 99, 99}, {0, 2, 32, 99, 99}, {0, 10, 30, 0, 99}, {0, 30, 10, 99, 99}, {0, 20, 30, 20, 99}, {0, 1, 10, 30, 99}, {0, 30, 30, 0, 99}, {0, 2, 30, 2, 99}, {0, 2, 12, 32, 99}},
+		Quick:    [][]int{{0, 30, 0, 99, 99}, {0, 10, 99, 99, 99}, {0, 20, 99, 99, 99}, {0, 2, 30, 99, 99}, {0, 2, 32, 99, 99}, {0, 30, 20, 99, 99}, {0, 1, 10, 99, 99}, {0, 1, 30, 0, 99}},
+		Thorough: [][]int{{0, 30, 0, 99, 99}, {0, 10, 99, 99, 99}, {0, 20, 99, 99, 99}, {0, 2, 30, 99, 99}, {0, 2, 32, 99, 99}, {0, 1, 10, 99, 99}, {0, 1, 30, 0, 99}, {0, 1, 10, 11, 99}, {0, 10, 30, 0, 99}, {0, 30, 10, 99, 99}, {0, 20, 30, 20, 99}, {0, 1, 10, 30, 99}, {0, 30, 30, 0, 99}, {0, 2, 30, 2, 99}, {0, 2, 12, 32, 99}},
 		Bound:    "NNS with one TLD; pool names a.com, b.com, x.a.com, owners o1,o2; the step kinds and names are the params (register / transfer / renew / time passes), within a step the signer, receiver, lifetime 1..4*10^8 s, years 0..11 and the time span 1..3*10^6 ms are symbolic; after every step totalSupply, balanceOf, tokensOf, isAvailable and ownerOf of the name are compared with a reference model (block clock symbolic)"},
 	{Prop: "C10", Unwind: 300, Pkg: "nns", Func: "VerifC10ExpiredTLD", Link: []string{"nns"},
 		Bound: "TLD org registered by the committee with a symbolic lifetime 1..1000 s, a.org with a symbolic lifetime 1..2000 s and one record, a symbolic time span 1..2.1*10^6 ms: ownerOf, properties, getRecords, resolve, getAllRecords answer exactly while the name AND its TLD are unexpired (witness exactly at the TLD's expiration replayed)"},
 	{Prop: "C11", Unwind: 300, Pkg: "nns", Func: "VerifC10Lifecycle", Link: []string{"nns"},
-		Quick:    [][]int{{0, 30, 0, 99, 99}, {0, 10, 99, 99, 99}},
-		Thorough: [][]int{{0, 30, 0, 99, 99}, {0, 10, 99, 99, 99}, {0, 10, 30, 0, 99}},
+		Quick:    [][]int{{0, 30, 0, 99, 99}, {0, 10, 99, 99, 99}, {0, 1, 10, 99, 99}},
+		Thorough: [][]int{{0, 30, 0, 99, 99}, {0, 10, 99, 99, 99}, {0, 10, 30, 0, 99}, {0, 1, 10, 99, 99}, {0, 1, 30, 0, 99}},
 		Bound:    "the lifecycle harness of C10 for register - time passes - register again, and register - transfer: after every step balanceOf and tokensOf of both owners list exactly what the model records, so an account that lost a name holds nothing of it"},
 	{Prop: "C11", Pkg: "nns", Func: "VerifC11Authorisation", Link: []string{"nns"},
 		Quick: c11Params(false), Thorough: c11Params(true),
-		Bound: "history: a.com registered by o1, one record, admin a1 (variant 0) / then transferred to o2 (variant 1); ONE invocation of the method given by param1 (addRecord, setRecord, deleteRecords, updateSOA, renew, setAdmin, transfer, register 3rd level, register 2nd level, registerTLD, setPrice, register 4th level under a 3rd-level name of another owner) with a symbolic signer set over {o1,o2,o3,a1,new admin,committee}+stranger; committee size param2"},
+		Bound: "history: a.com registered by o1, one record, admin a1 (variant 0) / then transferred to o2 (variant 1) / then expired and registered again by o2 (variant 2: the appointed admin must be gone); ONE invocation of the method given by param1 (addRecord, setRecord, deleteRecords, updateSOA, renew, setAdmin, transfer, register 3rd level, register 2nd level, registerTLD, setPrice, register 4th level under a 3rd-level name of another owner) with a symbolic signer set over {o1,o2,o3,a1,new admin,committee}+stranger; committee size param2"},
 	{Prop: "C12", Pkg: "nns", Func: "VerifC12Records", Link: []string{"nns"}, Unwind: 100,
 		Bound: "one registered name; a fixed sequence of record operations (add, add-possibly-duplicate, setRecord with symbolic index 0..2, add to an unregistered sub-name, registration attempt of a name whose sub-name has records, delete SOA, delete TXT) with symbolic 3-byte record data and a symbolic block clock; getRecords/getAllRecords and the SOA record (serial = time of the last mutation) compared with a model after each step"},
 	{Prop: "C12", Pkg: "nns", Func: "VerifC12Limits", Link: []string{"nns"}, Unwind: 100,
@@ -234,7 +238,10 @@ func c03Params(sizes []int) [][]int {
 }
 
 func c11Params(thorough bool) [][]int {
-	var out [][]int
+	out := [][]int{{2, 0, 1}, {2, 3, 1}, {2, 7, 1}} // variant 2 (expired and registered again): addRecord, updateSOA, register 3rd level
+	if thorough {
+		out = append(out, []int{2, 1, 1}, []int{2, 2, 1}, []int{2, 4, 1}, []int{2, 5, 1}, []int{2, 6, 1})
+	}
 	for v := 0; v < 2; v++ {
 		for m := 0; m <= 11; m++ {
 			n := 1
@@ -251,7 +258,7 @@ func c11Params(thorough bool) [][]int {
 }
 
 func c04Thorough() [][]int {
-	out := [][]int{{3, 100, 0, 4, 3}, {2, 100, 0, 3}, {2, 104, 0, 3}, {2, 100, 2, 3}, {3, 100, 0, 3, 0}}
+	out := [][]int{{3, 100, 0, 4, 3}, {2, 100, 0, 3}, {2, 104, 0, 3}, {2, 100, 2, 3}, {3, 100, 0, 3, 0}, {3, 0, 0, 4, 0}, {3, 4, 0, 4, 1}, {3, 0, 2, 4, 2}}
 	for a := 0; a < 5; a++ {
 		for b := 0; b < 5; b++ {
 			out = append(out, []int{2, (a + b) % 3 * 4 % 9, a, b}) // version-field lengths 0, 4, 8
